@@ -1203,3 +1203,109 @@ Section Thresholds.
     rewrite (Hmem ops2 b2 Eg). rewrite (thr_run_app ops2 b2 ety Hrest). exact Hg.
   Qed.
 End Thresholds.
+
+(* ================= tie to the registry model: which pipelines a Send dispatches to ================= *)
+Section BrokerTie.
+  Variable cf : N -> bool.
+
+  Lemma resolve_length ids : forall nodes objs, resolve ids nodes = Some objs -> length objs = length ids.
+  Proof.
+    induction ids as [|id t IH]; intros nodes objs H; cbn [resolve] in H.
+    - inversion H. reflexivity.
+    - destruct (aget N.eqb id nodes) as [u|]; [|discriminate]. destruct (resolve t nodes) as [r|] eqn:Er; [|discriminate].
+      inversion H; subst. cbn [length]. rewrite (IH _ _ Er). reflexivity.
+  Qed.
+
+  (* every registered pipeline was linked with as many objects as it lists ids, and with at least one *)
+  Definition pinv (b : broker) : Prop :=
+    forall k p, In (k, p) (b_pipes b) -> length (p_objs p) = length (p_ids p) /\ p_objs p <> [].
+
+  Lemma pinv_step b o : pinv b -> pinv (fst (fst (Broker.step cf b o))).
+  Proof.
+    intros Hi. destruct o as [id obj ty pa|id|pid e ids pa|e pid|e pid|e v|e v]; cbn [Broker.step].
+    - destruct (N.eqb id 0); [exact Hi|]. destruct (pol_of pa); [|exact Hi].
+      destruct (aget N.eqb id (b_nodes b)) as [u|]; [destruct (nu_pol u)|]; exact Hi.
+    - destruct (N.eqb id 0); [exact Hi|]. destruct (aget N.eqb id (b_nodes b)) as [u|]; [|exact Hi].
+      destruct (Nat.ltb 0 (nu_rc u)); exact Hi.
+    - destruct (N.eqb pid 0 || N.eqb e 0 || match ids with [] => true | _ => false end || memN 0 ids); [exact Hi|].
+      destruct (pol_of pa) as [pl|]; [|exact Hi].
+      destruct (match aget pkeqb (e, pid) (b_pipes b) with Some old => match p_pol old with PDeny => true | PAllow => false end | None => false end); [exact Hi|].
+      destruct (resolve ids (b_nodes b)) as [objs|] eqn:Er; [|exact Hi].
+      destruct (valid_shape objs) eqn:Ev; cbn [negb]; [|exact Hi].
+      intros k q Hin. cbn [fst b_pipes] in Hin. apply in_aset in Hin as [Heq|Hin]; [|exact (Hi k q Hin)].
+      inversion Heq; subst. cbn [p_objs p_ids]. split; [exact (resolve_length _ _ _ Er)|].
+      apply valid_shape_spec in Ev as [pre [x [y [-> _]]]]. destruct pre; discriminate.
+    - destruct (N.eqb e 0 || N.eqb pid 0); [exact Hi|]. destruct (negb (memN e (b_graphs b))); [exact Hi|].
+      destruct (aget pkeqb (e, pid) (b_pipes b)); [|exact Hi].
+      intros k q Hin. cbn [fst b_pipes] in Hin. apply (in_adel _ pkeqb_spec) in Hin as [_ Hin]. exact (Hi k q Hin).
+    - destruct (N.eqb e 0 || N.eqb pid 0); [exact Hi|]. destruct (negb (memN e (b_graphs b))); [exact Hi|].
+      destruct (aget pkeqb (e, pid) (b_pipes b)) as [old|]; [|exact Hi].
+      destruct (unregister_all (distinct (p_ids old)) (b_nodes b) [] true) as [[nodes' closed] ok].
+      intros k q Hin. cbn [fst b_pipes] in Hin. apply (in_adel _ pkeqb_spec) in Hin as [_ Hin]. exact (Hi k q Hin).
+    - destruct (N.eqb e 0 || Z.ltb v 0); exact Hi.
+    - destruct (N.eqb e 0 || Z.ltb v 0); exact Hi.
+  Qed.
+
+  Lemma pinv_run ops : pinv (Broker.run cf ops).
+  Proof.
+    unfold Broker.run. assert (H : pinv b0) by (intros k p []).
+    revert H. generalize b0. induction ops as [|o ops IH]; intros b Hb; cbn [fold_left]; [exact Hb|].
+    apply IH. apply pinv_step. exact Hb.
+  Qed.
+
+  Lemma zip_nodes_nonempty ids objs : length objs = length ids -> objs <> [] -> zip_nodes ids objs <> [].
+  Proof. destruct ids, objs; cbn; try discriminate; congruence. Qed.
+
+  Lemma zip_nodes_ids ids : forall objs, length objs = length ids -> map nid (zip_nodes ids objs) = ids.
+  Proof.
+    induction ids as [|i t IH]; intros [|o objs] H; cbn in *; try discriminate; [reflexivity|].
+    rewrite IH; [reflexivity|lia].
+  Qed.
+
+  (* after every registration history: Send dispatches to exactly the pipelines registered for the type at that moment
+     (and to no pipeline of another type), each with its node ids in registration order, and none of them is empty *)
+  Theorem roots_of_broker_spec ops ety rs : roots_of_broker (Broker.run cf ops) ety = Some rs ->
+    (forall pid ns, In (pid, ns) rs <->
+       exists p, In ((ety, pid), p) (b_pipes (Broker.run cf ops)) /\ ns = zip_nodes (p_ids p) (p_objs p)) /\
+    (forall pid ns, In (pid, ns) rs -> map nid ns = match aget pkeqb (ety, pid) (b_pipes (Broker.run cf ops)) with
+                                                   | Some p => p_ids p | None => [] end) /\
+    roots_ok rs.
+  Proof.
+    unfold roots_of_broker. destruct (memN ety (b_graphs (Broker.run cf ops))); [|discriminate].
+    intros H. inversion H; subst rs. clear H.
+    assert (Hspec : forall pid ns, In (pid, ns) (map (fun ip => (fst ip, zip_nodes (p_ids (snd ip)) (p_objs (snd ip)))) (pipes_of (Broker.run cf ops) ety)) <->
+                    exists p, In ((ety, pid), p) (b_pipes (Broker.run cf ops)) /\ ns = zip_nodes (p_ids p) (p_objs p)).
+    { intros pid ns. rewrite in_map_iff. split.
+      - intros [[pid' p] [Heq Hin]]. cbn [fst snd] in Heq. inversion Heq; subst. exists p. split; [|reflexivity]. apply pipes_of_in. exact Hin.
+      - intros [p [Hin ->]]. exists (pid, p). split; [reflexivity|]. apply pipes_of_in. exact Hin. }
+    split; [exact Hspec|]. split.
+    - intros pid ns Hin. apply Hspec in Hin as [p [Hin ->]].
+      pose proof (bi_pk _ (binv_run cf ops)) as Hk. change (BrokerProofs.run cf ops) with (Broker.run cf ops) in Hk.
+      rewrite (in_aget _ pkeqb_spec _ _ _ Hk Hin).
+      apply zip_nodes_ids. apply (pinv_run ops _ _ Hin).
+    - intros r Hin. destruct r as [pid ns]. apply Hspec in Hin as [p [Hin ->]]. cbn [snd].
+      destruct (pinv_run ops _ _ Hin) as [Hl Hne]. apply zip_nodes_nonempty; assumption.
+  Qed.
+
+  (* a type without graph: Send has nothing to dispatch to *)
+  Theorem no_graph_no_roots b ety : memN ety (b_graphs b) = false -> roots_of_broker b ety = None.
+  Proof. unfold roots_of_broker. intros ->. reflexivity. Qed.
+End BrokerTie.
+
+(* ================= the C03 statements over reachable states ================= *)
+Section ReachForms.
+  Variable beh : N -> N -> N -> outcome.
+  Variable e0 : N.
+  Theorem progress_reach roots c0 s : roots_ok roots -> reach beh e0 roots c0 s ->
+    terminal s \/ in_process s \/ exists s', internal_step beh e0 s s'.
+  Proof. intros Hr H. exact (progress beh e0 s (inv_reach beh e0 roots c0 s Hr H)). Qed.
+  Theorem can_terminate_reach roots c0 s : roots_ok roots -> reach beh e0 roots c0 s ->
+    exists n s', steps beh e0 n s s' /\ terminal s'.
+  Proof. intros Hr H. exact (can_terminate beh e0 s (inv_reach beh e0 roots c0 s Hr H)). Qed.
+  Theorem terminal_no_goroutine_reach roots c0 s : roots_ok roots -> reach beh e0 roots c0 s -> terminal s ->
+    wg s = 0 /\ forall t, In t (tasks s) -> exists f, tstage t = SDone f.
+  Proof. intros Hr H. exact (terminal_no_goroutine s (inv_reach beh e0 roots c0 s Hr H)). Qed.
+  Theorem no_send_after_close_reach roots c0 s t m : roots_ok roots -> reach beh e0 roots c0 s ->
+    rng s = RClosed -> In t (tasks s) -> tstage t <> SSend m.
+  Proof. intros Hr H. exact (no_send_after_close s t m (inv_reach beh e0 roots c0 s Hr H)). Qed.
+End ReachForms.
